@@ -268,7 +268,8 @@ def one_job(pid, tier, seed, job, bins, only=None):
                 if os.path.exists(sp):
                     os.remove(sp)
                 p2 = subprocess.run(binp + ["shapes", "--table", ptable, "--mode", consts["Mode"], "--out", sp, "--progress", prog],
-                                    stdout=subprocess.PIPE, stderr=subprocess.STDOUT, text=True, timeout=3000)
+                                    stdout=subprocess.PIPE, stderr=subprocess.STDOUT, text=True, timeout=3000, cwd=HARNESS,
+                                    env=dict(os.environ, MIRIFLAGS="-Zmiri-disable-isolation", ASAN_OPTIONS="detect_leaks=0"))
                 if p2.returncode != 0 or not os.path.exists(sp):
                     case = open(prog).read().strip() if os.path.exists(prog) else "?"
                     outs.append((prof, None, {"how": "the harness process died (signal/abort) while replaying with another element shape (%s build)" % prof,
